@@ -526,7 +526,10 @@ impl PacketReceiver for IceConn {
             }
         } else if (128..192).contains(&first_byte) {
             // RTP / RTCP
-            let is_rtcp = packet.len() >= 2 && (200..=211).contains(&packet[1]);
+            // RFC 5761 4: with RTP and RTCP on one port, second bytes 192..=223 are
+            // RTCP packet types (192 / 193 are the RFC 2032 FIR / NACK, 200..=213 the
+            // current ones); RTP payload types that would collide are not used.
+            let is_rtcp = packet.len() >= 2 && (192..=223).contains(&packet[1]);
 
             if self.latch_on_rtp.load(Ordering::Relaxed) {
                 if is_rtcp {
